@@ -581,6 +581,15 @@ func c15(c *Ctx) {
 			if mi, isMI := body.(*ssa.MakeInterface); isMI {
 				if rc, isC := mi.X.(*ssa.Call); isC && isCall(rc, "bytes.NewReader", "bytes.NewBuffer", "strings.NewReader") {
 					ok = valueName(rc.Call.Args[0]) == "body"
+					// or: a []byte captured from constructPost (built once, outside the closure), whatever it is called
+					if ld, isLd := rc.Call.Args[0].(*ssa.UnOp); isLd && ld.Op == token.MUL {
+						if _, isFV := ld.X.(*ssa.FreeVar); isFV {
+							ok = true
+						}
+					}
+					if _, isFV := rc.Call.Args[0].(*ssa.FreeVar); isFV {
+						ok = true
+					}
 				}
 			}
 			r.Check("constructPost:fresh-reader-per-attempt", ok, cl.Pos(), "the request body is bytes.NewReader(body) created inside the per-attempt closure (a shared reader is empty on a retry): "+pathOf(body))
@@ -783,7 +792,12 @@ func c15(c *Ctx) {
 			ok := false
 			for _, g := range WithAnon(cp) {
 				for _, cl := range callsTo(g, "strings.Split") {
+					// constructPost's own dynamic-header parameter (the last string parameter), under whatever name it
+					// reaches the split (a captured copy, a field of a request struct taken apart by NORM)
 					if valueName(cl.Common().Args[0]) == "dynHeaderTags" {
+						ok = true
+					}
+					if p, isP := ptrOrigin(cl.Common().Args[0]).(*ssa.Parameter); isP && p.Parent() == cp && p == cp.Params[len(cp.Params)-1] {
 						ok = true
 					}
 				}
@@ -1077,6 +1091,56 @@ func c20(c *Ctx) {
 				okT = true
 			}
 		}
+		if !okT {
+			// the Flushable's bound Flush method kept in a field: Flush calls that field, and everything ever stored
+			// in the field is a bound Flush method (or nil)
+			for _, cl := range callsIn(cf) {
+				if cl.Common().IsInvoke() || staticCallee(cl) != nil {
+					continue
+				}
+				_, field, _, isField := fieldRefThroughLoad(ptrOrigin(cl.Common().Value))
+				if !isField {
+					// through a getter
+					if gc, isCall := ptrOrigin(cl.Common().Value).(*ssa.Call); isCall {
+						if g := staticCallee(gc); g != nil {
+							eachInstr(g, func(in ssa.Instruction) {
+								if rt, ok := in.(*ssa.Return); ok && len(rt.Results) == 1 {
+									if _, f2, _, ok2 := fieldRefThroughLoad(rt.Results[0]); ok2 {
+										field, isField = f2, true
+									}
+								}
+							})
+						}
+					}
+				}
+				if !isField {
+					continue
+				}
+				nSt, allBound := 0, true
+				for _, fn := range pkgFuncs(w, "internal/flush") {
+					for _, st := range fieldStores(fn, "coordinator", field) {
+						nSt++
+						for _, vc := range valueCases(st.Val, nil) {
+							switch x := vc.V.(type) {
+							case *ssa.Const:
+								if x.Value != nil {
+									allBound = false
+								}
+							case *ssa.MakeClosure:
+								if f, ok := x.Fn.(*ssa.Function); !ok || !strings.HasPrefix(f.Name(), "Flush$bound") {
+									allBound = false
+								}
+							default:
+								allBound = false
+							}
+						}
+					}
+				}
+				if nSt >= 1 && allBound {
+					okT = true
+				}
+			}
+		}
 		r.Check("coordinator:flush-forwards", okT, cf.Pos(), "Flush calls the registered Flushable")
 		// telemetry handler
 		eh := w.Func("internal/awslambda/extension/telemetry", "(*Server).eventHandler")
@@ -1093,6 +1157,57 @@ func c20(c *Ctx) {
 				if ld, ok := cl.Common().Value.(*ssa.UnOp); ok && ld.Op == token.MUL {
 					if t, _, base, ok := fieldRef(ld.X); ok && t == "Server" && len(eh.Params) > 0 && ptrOrigin(base) == ssa.Value(eh.Params[0]) {
 						isHook = true
+					}
+				}
+			}
+			// ... or looked up by record type in a table kept in the server (hooks[p.Type]): then the table must hold
+			// exactly one entry, for RuntimeDone, and the call stands under the "found" result of the lookup
+			if !isHook && !cl.Common().IsInvoke() && staticCallee(cl) == nil {
+				if ex, ok := cl.Common().Value.(*ssa.Extract); ok && ex.Index == 0 {
+					if lk, ok := ex.Tuple.(*ssa.Lookup); ok && lk.CommaOk && strings.HasSuffix(pathOf(lk.Index), ".Type") {
+						if t, field, _, ok := fieldRefThroughLoad(lk.X); ok && t == "Server" {
+							found := false
+							for _, f := range factsAt(cl.Block()) {
+								if f.Op == token.ILLEGAL && f.True {
+									if e2, ok := f.V.(*ssa.Extract); ok && e2.Tuple == ssa.Value(lk) && e2.Index == 1 {
+										found = true
+									}
+								}
+							}
+							keys, other := 0, false
+							for _, fn := range pkgFuncs(w, "internal/awslambda/extension/telemetry") {
+								eachInstr(fn, func(in ssa.Instruction) {
+									mu, ok := in.(*ssa.MapUpdate)
+									if !ok {
+										return
+									}
+									// the map being filled is (or becomes) the server's table
+									isTable := strings.HasSuffix(pathOf(mu.Map), "."+field)
+									if mk, isMk := mu.Map.(*ssa.MakeMap); isMk {
+										for _, st := range fieldStores(fn, "Server", field) {
+											if st.Val == ssa.Value(mk) {
+												isTable = true
+											}
+										}
+									}
+									if !isTable {
+										return
+									}
+									if k, isC := mu.Key.(*ssa.Const); isC && constName(k) == "RuntimeDone" {
+										keys++
+									} else {
+										other = true
+									}
+								})
+							}
+							if found && keys == 1 && !other {
+								nHook++
+								r.Pass("telemetry:hook-on-runtimeDone", cl.Pos(), "the hook is looked up by record type in a table whose only entry is RuntimeDone, and called only when found")
+								r.Check("telemetry:hook-per-record", reachableFrom(cl.Block())[cl.Block()], cl.Pos(), "the hook is inside the loop over the telemetry batch")
+								_, isCall := cl.(*ssa.Call)
+								r.Check("telemetry:hook-synchronous", isCall, cl.Pos(), "the hook is called synchronously")
+							}
+						}
 					}
 				}
 			}
